@@ -64,14 +64,18 @@ ASSUMPTIONS = [
     "pretty values have the shapes beacon.py produces for the canonical TLV types; text is latin-1; execute strings are latin-1",
     "BeaconGate API names reach the generator in set-iteration order: both sides compare the block with its non-group tail sorted "
     "(the harness checks that the tree lists them in the order of the pretty value)",
-    "well-formed = printable-ASCII text without backslash, known execute items, programs with every BUILD group terminated once and last, "
-    "exactly one `print` in the recover program, an even number of comma-separated fields in SETTING_DOMAINS, defined enum values",
+    "well-formed = ANY latin-1 text in text settings (backslashes, quotes, control and non-ASCII characters; NUL cannot be stored in a "
+    "configuration string), any SETTING_DOMAINS value (odd field counts / empty URIs included: missing URIs are skipped, no `uri` option "
+    "when nothing is left), known execute items (`CreateThread \"mod!fn+0x..\"` without a backslash in the quoted part: candidate finding "
+    "C13-execute-special-backslash), programs with every BUILD group terminated once and last, exactly one `print` in the recover "
+    "program, defined enum values",
     "the http-get server output is promised in *recover* order (the configuration only stores the recover program and lengths; "
     "arguments are `X`*n placeholders): the generated block lists the steps in the order the client undoes them",
 ]
 RULE = ("single-setting / all-present / random subset-and-order configurations over typed value generators (zero and non-zero guards, every "
         "transform/recover opcode with nasty byte arguments, every execute name, all single-flag gate vectors and group complements, "
-        "printable text with quotes), malformed programs, duplicates, sample beacons; distinct = hash of (stream, line); non-trivial = a "
+        "text with backslashes / quotes / control bytes / non-ASCII latin-1, None / empty URIs and odd SETTING_DOMAINS field counts), "
+        "malformed programs, duplicates, sample beacons; distinct = hash of (stream, line); non-trivial = a "
         "non-empty tree (gen), printable text with a non-empty dictionary (rt), a well-formed configuration (chk)")
 
 VERIF = Path(__file__).resolve().parent.parent.parent
@@ -80,8 +84,9 @@ try:
                   if k.get("property") == "C13" and k.get("status") == "known"}
 except Exception:  # noqa: BLE001
     _KNOWN_IDS = set()
-KF_BACKSLASH = "C13-text-option-backslash"
-KF_DOMAINS = "C13-domains-odd-fields"
+# text options with backslashes (fix 1fcf339) and odd / empty SETTING_DOMAINS (fix 8acec71) are repaired in /repo: they are ordinary
+# property-relevant cases now.  Still open: the quoted part of an execute item is handed to value_to_string as `str`.
+KF_EXEC = "C13-execute-special-backslash"
 
 # ----------------------------------------------------------------------------------------------------------------
 # Cobalt Strike's numbering, written by hand (independent of the library's enums)
@@ -519,7 +524,11 @@ def run_pipeline(payload: str, heavy: bool):
                 try:
                     p2 = C2Profile.from_text(text)
                     res["reparse"] = p2.tree == strip_comments(profile.tree)
-                    res["dict"] = canon_dict(p2.as_dict())
+                    try:
+                        res["dict"] = canon_dict(p2.as_dict())
+                    except ValueError as e:            # a literal the generator left unescaped (`\\x.d`): no dictionary
+                        res["dict"] = None
+                        res["dict_exc"] = e
                 except lark.exceptions.LarkError:
                     res["reparse"] = False
         finally:
@@ -543,6 +552,8 @@ def impl(stream, line):
             return "ok text=F"
         if not r.get("reparse"):
             return "ok text=T reparse=F"
+        if "dict_exc" in r:
+            raise r["dict_exc"]
         return ("ok text=T reparse=T dict " + enc_dict(r["dict"])).rstrip()
     if stream == "chk":
         ded = dict_semantics(r["entries"])
@@ -558,10 +569,6 @@ def impl(stream, line):
 # ----------------------------------------------------------------------------------------------------------------
 # the property, stated independently: well-formed configurations and the expected dictionary
 # ----------------------------------------------------------------------------------------------------------------
-def printable_text(s: bytes) -> bool:
-    return all(0x20 <= c < 0x7F and c != 0x5C for c in s)
-
-
 def esc_bytes(bs: bytes) -> str:
     """a byte string as it is written between the quotes of a profile literal"""
     out = []
@@ -586,9 +593,7 @@ def esc_bytes(bs: bytes) -> str:
 def lit(kind, val) -> str:
     if kind in ("i1", "i2"):
         return str(val)
-    if kind == "s":
-        return val.decode("latin-1").replace('"', '\\"')
-    if kind == "b":
+    if kind in ("s", "b"):            # configuration text is data: written with the same escapes as bytes
         return esc_bytes(val)
     raise ValueError(kind)
 
@@ -630,17 +635,24 @@ def wf_program(prog, allowed):
     return True
 
 
+def exec_special(it) -> bool:
+    """`CreateThread "…"` / `CreateRemoteThread "…"`"""
+    if it is None:
+        return False
+    name, sp, rest = it.partition(b" ")
+    return bool(sp) and name in (b"CreateThread", b"CreateRemoteThread") and len(rest) >= 2
+
+
 def wf_exec_item(it):
     if it is None or b"\\" in it:
         return False
     if it.decode("latin-1") in list(EXEC_OP) + ["NtQueueApcThread-s"]:
         return True
-    name, sp, rest = it.partition(b" ")
-    return bool(sp) and name in (b"CreateThread", b"CreateRemoteThread") and len(rest) >= 2
+    return exec_special(it)
 
 
 def wf_scalar(kind, val):
-    return kind in ("i1", "i2", "b") or (kind == "s" and printable_text(val))
+    return kind in ("i1", "i2", "b", "s")          # any number, any bytes, any latin-1 text
 
 
 def py_wf(entries, uris) -> bool:
@@ -651,8 +663,7 @@ def py_wf(entries, uris) -> bool:
         if idx not in UNDERSTOOD:
             continue
         if idx == 8:
-            if any(u is None or not printable_text(u) for u in uris):
-                return False
+            pass                                    # any SETTING_DOMAINS value: missing URIs are skipped
         elif idx == 11:
             if kind != "R" or sum(1 for st in val if st == ("f", 1)) != 1:
                 return False
@@ -693,7 +704,9 @@ def py_expected(entries, uris) -> dict:
                 continue
             add(PLAIN[idx], lit(kind, val))
         elif idx == 8:
-            add("http-get.uri", ", ".join(u.decode("latin-1") for u in uris).replace('"', '\\"'))
+            joined = b", ".join(u for u in uris if u is not None)
+            if joined:                              # no URI at all (empty DOMAINS, `a.com`, `a.com,`): the option is absent
+                add("http-get.uri", esc_bytes(joined))
         elif idx == 11:
             steps = [st for st in val if st != ("f", 1)] + [st for st in val if st == ("f", 1)]
             for st in steps:
@@ -750,63 +763,33 @@ def py_expected(entries, uris) -> dict:
     return d
 
 
+def _strip_exec_backslashes(entries):
+    out = []
+    for idx, kind, val in entries:
+        if idx == 51 and kind == "X":
+            val = [it.replace(b"\\", b"") if (exec_special(it) and b"\\" in it) else it for it in val]
+        out.append((idx, kind, val))
+    return out
+
+
 def kf_class(entries, uris):
-    """input classes of the recorded findings (on the settings after dict semantics)"""
-    for idx, kind, val in entries:
-        if idx == 8 and any(u is None for u in uris):
-            return KF_DOMAINS
-    for idx, kind, val in entries:
-        if idx in TEXT_SETTINGS and kind == "s" and b"\\" in val and not (idx == 66 and not val):
-            return KF_BACKSLASH
-        if idx == 8 and any(u is not None and b"\\" in u for u in uris):
-            return KF_BACKSLASH
+    """input class of the recorded finding (on the settings after dict semantics): the configuration is well-formed except that the
+    quoted part of one or more `CreateThread "…"` / `CreateRemoteThread "…"` execute items contains a backslash"""
+    if py_wf(entries, uris):
+        return None
+    if any(idx == 51 and kind == "X" and any(exec_special(it) and b"\\" in it for it in val) for idx, kind, val in entries) \
+            and py_wf(_strip_exec_backslashes(entries), uris):
+        return KF_EXEC
     return None
 
 
-def py_unescape(raw: str) -> bytes:
-    """bytes denoted by the text between the quotes of a profile literal (documented escapes)"""
-    out, i = bytearray(), 0
-    simple = {"n": 10, "r": 13, "t": 9, "\\": 0x5C, '"': 0x22, "'": 0x27}
-    while i < len(raw):
-        c = raw[i]
-        if c == "\\" and i + 1 < len(raw):
-            d = raw[i + 1]
-            if d == "x" and i + 3 < len(raw) + 0 and len(raw) >= i + 4:
-                out.append(int(raw[i + 2:i + 4], 16))
-                i += 4
-            elif d == "u" and len(raw) >= i + 6:
-                out.append(int(raw[i + 4:i + 6], 16))
-                i += 6
-            elif d in simple:
-                out.append(simple[d])
-                i += 2
-            else:
-                i += 2
-        else:
-            out.append(ord(c) & 0xFF)
-            i += 1
-    return bytes(out)
-
-
 def kf_violated(line, kf, entries, uris) -> bool:
-    """does the implementation really break the property on this input of a recorded class?"""
+    """does the implementation really break the property on this input of the recorded class?  (no exception, valid text that parses
+    back to the same tree, dictionary == the expected dictionary, which promises the quoted part byte for byte)"""
     r = run_pipeline(line.partition(" ")[2], True)
-    if "exc" in r:
+    if "exc" in r or "text" not in r or not r.get("reparse"):
         return True
-    if "text" not in r or not r.get("reparse"):
-        return True
-    if kf == KF_BACKSLASH:
-        d = r["dict"]
-        for idx, kind, val in entries:
-            if kind == "s" and b"\\" in val and idx in PLAIN and not (idx in GUARDED and not val):
-                got = d.get(PLAIN[idx], [None])[0]
-                if got is None or py_unescape(got) != val:
-                    return True
-        if any(e[0] == 8 for e in entries) and any(u is not None and b"\\" in u for u in uris):
-            got = d.get("http-get.uri", [None])[0]
-            if got is None or py_unescape(got) != b", ".join(u for u in uris if u is not None):
-                return True
-    return False
+    return r["dict"] != py_expected(entries, uris)
 
 
 def _parsed(line):
@@ -836,9 +819,7 @@ def known(stream, line, known_list):
         return None
     ids = {k["id"] for k in known_list}
     uris, ded = _parsed(line)
-    if py_wf(ded, uris):
-        return None
-    kf = kf_class(ded, uris)
+    kf = kf_class(ded, uris)            # None for well-formed configurations
     return kf if (kf in ids and kf_violated(line, kf, ded, uris)) else None
 
 
@@ -885,7 +866,9 @@ def shrink(stream, line):
 # generators
 # ----------------------------------------------------------------------------------------------------------------
 PRINTABLE = bytes(c for c in range(0x20, 0x7F) if c != 0x5C)
-NASTY_TEXT = [b'"', b"'", b"#", b";", b"{", b"}", b" ", b"  ", b'""', b"/*", b"$", b"%", b"set ", b"}\"", b"\"#", b"x;\"y"]
+NASTY_TEXT = [b'"', b"'", b"#", b";", b"{", b"}", b" ", b"  ", b'""', b"/*", b"$", b"%", b"set ", b"}\"", b"\"#", b"x;\"y",
+              b"\\", b"\\\\", b"\\\"", b"\\'", b"\\n", b"\\x41", b"\\u0041", b"\n", b"\r", b"\t", b"\x01", b"\x1b", b"\x7f", b"\x80", b"\xa0",
+              b"\xe9", b"\xff", b"\\\n", b"'\"", b"\\;"]
 NASTY_BYTES = [b'"', b"\\", b"'", b"\x00", b"\xff", b"\n", b"\r", b"\t", b"\\\"", b"\\\\", b"\\'", b"#", b";", b"{", b"}", b"\x7f", b"\x80",
                b"\\x41", b"\\n", b": ", b"=", b" ", b"\\u0041", b"\x1b", b"\xe9"]
 
@@ -912,20 +895,30 @@ def gen_bytes(rng) -> bytes:
     return out
 
 
+URI_CHARS = b"abcXYZ09_-./%\"' \\\\#;\n\t\x01\x7f\xe9\xff"
+
+
 def gen_uri(rng) -> bytes:
-    return b"/" + bytes(rng.choice(b"abcXYZ09_-./%\"' ") for _ in range(rng.choice([0, 1, 3, 8])))
+    r = rng.random()
+    if r < 0.12:
+        return b""                                       # `a.com,` : an empty URI
+    return (b"/" if r < 0.9 else b"") + bytes(rng.choice(URI_CHARS) for _ in range(rng.choice([0, 1, 3, 8])))
 
 
 def gen_domains(rng, wf=True) -> bytes:
+    """`domain,uri,domain,uri,…`; odd field counts (the last URI is missing -> None), empty values and repeated URIs are ordinary"""
     n = rng.choice([1, 1, 2, 3])
     uris = [gen_uri(rng) for _ in range(n)]
     if n > 1 and rng.random() < 0.5:
         uris[-1] = uris[0]
     parts = []
     for i, u in enumerate(uris):
-        parts += [b"d%d.example.com" % i, u]
-    if not wf:
-        parts = parts[:-1] if rng.random() < 0.7 else []
+        parts += [b"d%d.example.com" % i if rng.random() < 0.9 else b"", u]
+    r = rng.random()
+    if r < 0.2:
+        parts = parts[:-1]                               # odd number of fields
+    elif r < 0.25:
+        parts = []                                       # empty setting: [('', None)]
     return b",".join(parts)
 
 
@@ -1000,13 +993,21 @@ def gen_recover(rng, wf=True):
     return steps
 
 
-def gen_exec_item(rng):
+def gen_exec_item(rng, bad=False):
     r = rng.random()
-    if r < 0.65:
+    if r < 0.65 and not bad:
         return rng.choice(list(EXEC_OP)).encode()
     name = rng.choice(["CreateThread", "CreateRemoteThread"])
     mod = bytes(rng.choice(b"abcdll.32_\"' #;") for _ in range(rng.choice([0, 1, 5, 9])))
     fn = bytes(rng.choice(b"ABCfoo!+09x\"';") for _ in range(rng.choice([0, 1, 4, 12])))
+    if bad:                                              # a backslash in the quoted part (C13-execute-special-backslash)
+        esc = rng.choice([b"\\", b"\\\\", b"\\\"", b"\\'", b"\\n", b"\\x41", b"C:\\w\\"])
+        if rng.random() < 0.5:
+            pos = rng.randrange(len(mod) + 1)
+            mod = mod[:pos] + esc + mod[pos:]
+        else:
+            pos = rng.randrange(len(fn) + 1)
+            fn = fn[:pos] + esc + fn[pos:]
     off = rng.choice([0, 0, 1, 0x10, 0x2285, 0xFFFF])
     return name.encode() + b' "' + mod + b"!" + fn + ((b"+0x%x" % off) if off else b"") + b'"'
 
@@ -1045,13 +1046,9 @@ def gen_value(rng, idx, wf=True):
         if idx in (26, 27) and rng.random() < 0.5:
             return "s", rng.choice([b"GET", b"POST", b"PUT"])
         t = gen_text(rng)
-        if not wf:
-            r = rng.random()
-            if r < 0.6:
-                pos = rng.randrange(len(t) + 1)
-                t = t[:pos] + rng.choice([b"\\", b"\\\\", b"\\\"", b"\\'", b"\\n", b"\\x41"]) + t[pos:]
-            else:
-                t += bytes([rng.choice([0xA0, 0xE9, 0xFF, 0x7F, 0x09, 0x0A, 0x01])])
+        if rng.random() < 0.3:                           # any latin-1 text is well-formed (NUL cannot be stored)
+            pos = rng.randrange(len(t) + 1)
+            t = t[:pos] + bytes(rng.randrange(1, 256) for _ in range(rng.choice([1, 1, 2, 4]))) + t[pos:]
         return "s", t
     if idx == 19:
         return "s", b"%d.%d.%d.%d" % tuple(rng.choice([0, 1, 8, 127, 255]) for _ in range(4))
@@ -1074,8 +1071,11 @@ def gen_value(rng, idx, wf=True):
         return "J", []
     if idx == 51:
         items = [gen_exec_item(rng) for _ in range(rng.choice([0, 1, 2, 4, 8]))]
-        if not wf and items:
-            items[rng.randrange(len(items))] = None
+        if not wf:
+            if items and rng.random() < 0.5:
+                items[rng.randrange(len(items))] = None
+            else:
+                items.insert(rng.randrange(len(items) + 1), gen_exec_item(rng, bad=True))
         return "X", items
     if idx == 78:
         return "G", gen_gate_random(rng)
@@ -1095,7 +1095,13 @@ def gen_config(rng, p=0.5, wf=True, dup=0.0, npass=None):
     idxs = [i for i in UNDERSTOOD if rng.random() < p]
     rng.shuffle(idxs)
     entries = []
-    bad_at = None if wf else (rng.randrange(len(idxs)) if idxs else None)
+    bad_at = None
+    if not wf:                                           # one broken setting, among those whose value CAN be ill-formed
+        breakable = [j for j, idx in enumerate(idxs) if idx in (11, 12, 13, 51, 16)]
+        if not breakable:
+            idxs.insert(rng.randrange(len(idxs) + 1), rng.choice([i for i in (11, 12, 13, 51, 16) if i not in idxs]))
+            breakable = [j for j, idx in enumerate(idxs) if idx in (11, 12, 13, 51, 16)]
+        bad_at = rng.choice(breakable)
     for j, idx in enumerate(idxs):
         k, v = gen_value(rng, idx, wf=(j != bad_at))
         entries.append((idx, k, v))
@@ -1123,15 +1129,14 @@ def emit(entries, heavy=True, rt=True):
     yield "gen", "gen " + payload
     if heavy:
         ded = dict_semantics(entries)
-        if rt and kf_class(ded, uris) != KF_BACKSLASH and not _has_backslash_text(ded, uris):
+        if rt and not _has_backslash_exec(ded):
             yield "rt", "rt " + payload
         yield "chk", "chk " + payload
 
 
-def _has_backslash_text(entries, uris):
+def _has_backslash_exec(entries):
+    """the rt stream compares the dictionary of the re-parsed text: not defined when an execute literal is left unescaped"""
     for idx, kind, val in entries:
-        if kind == "s" and b"\\" in val and idx in TEXT_SETTINGS + [8]:
-            return True
         if kind == "X" and any(it is not None and b"\\" in it for it in val):
             return True
     return False
@@ -1283,9 +1288,14 @@ def gen(tier, rng, shard, nshards):
         for v in (b"", b"\x00", b'a"\\b', b"\\", b"\x80\xff"):
             if mine():
                 yield from emit([(idx, "b", v)])
-    for v in (b"", b"8.8.8.8", b'a"b'):
+    for v in (b"", b"8.8.8.8", b'a"b', b"8.8.8.8\n1.1.1.1", b"a\\", b"\\\"", b"x\r\ny", b"\xe9\xff", b"#;{}"):
         if mine():
             yield from emit([(66, "s", v)])
+    # text options: the characters the str path of value_to_string mishandled
+    for idx in (9, 10, 26, 29, 60, 65):
+        for v in (b"\\", b"a\\", b"\\\"", b"a\\nb", b"\\'", b"a\nb", b"\x01\x7f\x80\xff", b'"', b"\\\\", b"\\x41", b"caf\xe9"):
+            if mine():
+                yield from emit([(idx, "s", v)])
     for name in list(BOF) + [None]:
         if mine():
             yield from emit([(16, "s", name.encode())] if name else [(16, "n", None)])
@@ -1321,7 +1331,8 @@ def gen(tier, rng, shard, nshards):
         if mine():
             yield from emit([(51, "X", [n])])
     for sp in (b'CreateThread "ntdll!RtlUserThreadStart+0x2285"', b'CreateRemoteThread "kernel32.dll!LoadLibraryA"', b'CreateThread "!"',
-               b'CreateRemoteThread "a b!c d+0x1"', b'CreateThread "q\"uote!x"'):
+               b'CreateRemoteThread "a b!c d+0x1"', b'CreateThread "q\"uote!x"', b'CreateThread "C:\\w\\x.dll!f"', b'CreateThread "a\\"!f"',
+               b'CreateRemoteThread "a!f\\"', b'CreateThread "a\\nb!f+0x10"', b"CreateThread \"a\\'b!f\""):
         if mine():
             yield from emit([(51, "X", [sp])])
             yield from emit([(51, "X", names + [sp])])
@@ -1335,7 +1346,9 @@ def gen(tier, rng, shard, nshards):
         if mine():
             yield from emit([(78, "G", gate_pretty(on))])
     # ---- domains / uris ---------------------------------------------------------------------------------------------------------
-    for dom in (b"a.com,/x", b"a.com,/x,b.com,/y", b"a.com,/x,b.com,/x", b"a.com", b"", b"a.com,/x,b.com", b'a.com,/q"x', b"a.com,/b\\s"):
+    for dom in (b"a.com,/x", b"a.com,/x,b.com,/y", b"a.com,/x,b.com,/x", b"a.com", b"", b"a.com,/x,b.com", b'a.com,/q"x', b"a.com,/b\\s",
+                b"a.com,", b"a.com,,b.com,/y", b"a.com,/x,b.com,", b",", b",,", b"a.com,/x\\", b"a.com,\\\"", b"a.com,/\xe9\n", b"a.com,,b.com",
+                b"a.com,/x,b.com,/y,c.com", b"a.com, ,b.com,"):
         if mine():
             yield from emit([(8, "s", dom)])
 
@@ -1351,7 +1364,7 @@ def gen(tier, rng, shard, nshards):
     n_small = (12000 if thorough else 2000) // nshards
     for i in range(n_small):
         yield from emit(gen_config(rng, p=rng.choice([0.05, 0.08, 0.12]), dup=0.1))
-    # ---- not well-formed: one broken setting per configuration (malformed programs, None items, odd domains, backslashes) --
+    # ---- not well-formed: one broken setting per configuration (malformed programs, None items, execute backslashes, undefined enum) --
     n_bad = (4000 if thorough else 900) // nshards
     for i in range(n_bad):
         yield from emit(gen_config(rng, p=rng.choice([0.1, 0.3, 0.5]), wf=False))
